@@ -23,6 +23,9 @@ CODEC_OUT = ["generic-JSON content beyond flat string-valued objects (handled by
              "multi-byte UTF-8 and strings longer than the capacity bound",
              "fidelity of the encoding/json dispatch model (validated by native replay of witnesses, not proved)"]
 
+# configurations that share no encryption option with the transport (assumed away by C07/C09)
+INSANE = [{"enccfg": 0, "transport": 1}, {"enccfg": 1, "transport": 2}]
+
 CHECKS = {
     "C01": {
         "level_text": "All five envelope kinds are built with symbolic ids, node addresses, metadata, enum members, reasons, option lists, "
@@ -79,6 +82,107 @@ CHECKS = {
         "bounds": {"quick": {"mutations": 1, "string_cap": 2}, "thorough": {"mutations": 2, "string_cap": 3}},
         "out": CODEC_OUT + ["inputs that are not well-formed JSON (handled by encoding/json)", "inputs more than k mutations away from a valid encoding"],
         "assumptions": ["nil and empty metadata/option lists are identified when comparing envelopes"],
+    },
+    "C03": {
+        "level_text": "The real ServerChannel.EstablishSession/negotiateSession/authenticateSession/FailSession are executed symbolically against a "
+                      "scripted transport whose every Receive returns an arbitrary session envelope (symbolic state, id, node, options, scheme, "
+                      "credentials), a data envelope or an error, with symbolic outcomes of the Authenticate and Register callbacks (granted role, "
+                      "unknown/empty role with and without round trip, error) and symbolic server configurations. At return, establishment "
+                      "(state or emitted established envelope) implies a granting Authenticate call on the identity/scheme/credentials of the latest "
+                      "received session under an offered scheme, followed by exactly one successful Register whose node is announced.",
+        "level_note": "Trusted: SSA->SMT executor, z3; the decode side (bytes -> envelopes) is C02's claim and enters here as 'arbitrary envelope'. "
+                      "Bounds: script depth 4 (quick) / 6 (thorough) receives, i.e. up to 1 / 3 authentication round trips; string capacity 2.",
+        "runs": [
+            {"harness": "HarnessC03Server", "grid": {"enccfg": [0, 1, 2, 3], "transport": [0, 1, 2]}, "params": {"depth": 4},
+             "reach": ["c03:handshake-returned"], "tier": "quick"},
+            {"harness": "HarnessC03Server", "grid": {"enccfg": [0, 1, 2, 3], "transport": [0, 1, 2], "authnil": [0, 1]}, "params": {"depth": 6},
+             "reach": ["c03:handshake-returned"], "tier": "thorough"},
+        ],
+        "bounds": {"quick": {"script_depth": 4}, "thorough": {"script_depth": 6}},
+        "out": ["byte-level input (C02)", "real TLS", "ServerBuilder.buildAuthenticate adapters"],
+        "assumptions": ["Authenticate returns a non-nil result when its error is nil; callbacks return normally"],
+    },
+    "C07": {
+        "level_text": "Same symbolic server handshake as C03; the emitted session envelopes are checked against the protocol grammar (negotiating options, "
+                      "confirmation, authenticating options, round trips, established, at most one terminal), single session id, server node as sender, "
+                      "and fail-closed behaviour: whenever the peer sent only session envelopes, no callback failed and the session was not established, "
+                      "the last emitted envelope is 'failed' with a reason, nothing follows and the transport is closed.",
+        "level_note": "Trusted: SSA->SMT executor, z3. Bounds: script depth 4 / 6; configurations sharing at least one compression and one encryption option with the transport.",
+        "runs": [
+            {"harness": "HarnessC07Server", "grid": {"enccfg": [0, 1, 2, 3], "transport": [0, 1, 2]}, "params": {"depth": 4}, "skip": INSANE,
+             "reach": ["c07:handshake-returned", "c07:client-violated-the-exchange"], "tier": "quick"},
+            {"harness": "HarnessC07Server", "grid": {"enccfg": [0, 1, 2, 3], "transport": [0, 1, 2], "authnil": [0, 1]}, "params": {"depth": 6}, "skip": INSANE,
+             "reach": ["c07:handshake-returned"], "tier": "thorough"},
+        ],
+        "bounds": {"quick": {"script_depth": 4}, "thorough": {"script_depth": 6}},
+        "out": ["transport send failures during FailSession (C14)", "byte-level input (C02)"],
+        "assumptions": ["callbacks return normally"],
+    },
+    "C08": {
+        "level_text": "The real ClientChannel.EstablishSession (and Client.buildChannel) run symbolically against a scripted server: every Receive returns "
+                      "an arbitrary session (any state incl. regressions, any id, nodes, option lists, confirmations, round-trip data), a non-session envelope "
+                      "or an error; selectors and authenticator are stubs. Verdicts: no reachable panic (including in the receiver goroutine once "
+                      "established), truthful establishment (state/id/local/remote node adopted from the server's established envelope), id echo, "
+                      "credentials only in answer to an authentication request, close on finished/failed.",
+        "level_note": "Trusted: SSA->SMT executor, cooperative scheduler (no pre-emption), z3. Bounds: script depth 4 / 6; the caller's context has a deadline "
+                      "(a server that stops talking ends the handshake with the context's error).",
+        "runs": [
+            {"harness": "HarnessC08Client", "params": {"depth": 4}, "reach": ["c08:handshake-returned", "c08:client-established"], "tier": "quick"},
+            {"harness": "HarnessC08Build", "params": {"depth": 4}, "reach": ["c08:build-returned"], "tier": "quick"},
+            {"harness": "HarnessC08Client", "grid": {"emptyopts": [0, 1], "setfails": [0, 1], "roundtrip": [0, 1]}, "params": {"depth": 6},
+             "reach": ["c08:handshake-returned"], "tier": "thorough"},
+            {"harness": "HarnessC08Build", "grid": {"sendfails": [0, 1]}, "params": {"depth": 6}, "reach": ["c08:build-returned"], "tier": "thorough"},
+        ],
+        "bounds": {"quick": {"script_depth": 4}, "thorough": {"script_depth": 6}},
+        "out": ["the library's default selectors/authenticator (they index options[0] / panic by design and are callbacks in the property's sense)"],
+        "assumptions": ["selector and authenticator callbacks return normally"],
+    },
+    "C09": {
+        "level_text": "Same symbolic server handshake as C03 over all configured/supported option lattices: the offered lists equal configured ∩ supported "
+                      "(as sets), a confirmation is emitted only for an offered pair, any other reply is answered with failed, and the transport had "
+                      "switched to the confirmed options before the authentication request was sent and before any credentials were examined. The client "
+                      "side (applies the confirmed values before its next receive) is covered by the C08 harness.",
+        "level_note": "Trusted: SSA->SMT executor, z3; TLS itself is a stub (SetEncryption records the switch). Bounds: script depth 4 / 6.",
+        "runs": [
+            {"harness": "HarnessC09Server", "grid": {"enccfg": [0, 1, 2, 3], "transport": [0, 1, 2]}, "params": {"depth": 4}, "skip": INSANE,
+             "reach": ["c09:handshake-returned"], "tier": "quick"},
+            {"harness": "HarnessC09Server", "grid": {"enccfg": [0, 1, 2, 3], "transport": [0, 1, 2], "setfails": [0, 1]}, "params": {"depth": 6}, "skip": INSANE,
+             "reach": ["c09:handshake-returned"], "tier": "thorough"},
+        ],
+        "bounds": {"quick": {"script_depth": 4}, "thorough": {"script_depth": 6}},
+        "out": ["the TLS handshake and record layer"],
+        "assumptions": [],
+    },
+    "C10": {
+        "level_text": "Same symbolic server handshake with every configuration whose encryption list excludes 'none' on every transport able to provide "
+                      "a configured option, against arbitrary (cooperative or hostile) client scripts: at every emitted authenticating/established "
+                      "envelope and at every Authenticate call the transport's encryption is a member of the configured list.",
+        "level_note": "Trusted: SSA->SMT executor, z3; SetEncryption is a stub that records the switch. Bounds: script depth 4 / 6.",
+        "runs": [
+            {"harness": "HarnessC10Server", "grid": {"enccfg": [1], "transport": [0, 1]}, "params": {"depth": 4},
+             "reach": ["c10:handshake-returned"], "tier": "quick"},
+            {"harness": "HarnessC10Server", "grid": {"enccfg": [1], "transport": [0, 1], "authnil": [0, 1], "setfails": [0, 1]}, "params": {"depth": 6},
+             "reach": ["c10:handshake-returned"], "tier": "thorough"},
+        ],
+        "bounds": {"quick": {"script_depth": 4}, "thorough": {"script_depth": 6}},
+        "out": ["real TLS"],
+        "assumptions": [],
+    },
+    "C14": {
+        "level_text": "Server.handleChannel is executed symbolically over the same scripted transport and callback outcomes (every failing client script, "
+                      "receive errors, non-session input, Authenticate/Register errors, misconfiguration): when the session never reached established the "
+                      "transport has been closed, neither callback fired and no goroutine of the connection is left; when it was established the callbacks "
+                      "fired exactly once each with the session id, Established before any handler.",
+        "level_note": "Trusted: SSA->SMT executor, cooperative scheduler (no pre-emption), z3. Bounds: script depth 4 / 5, channel buffer 1.",
+        "runs": [
+            {"harness": "HarnessC14Serve", "grid": {"enccfg": [0, 1, 2, 3], "transport": [0, 1, 2]}, "params": {"depth": 4},
+             "reach": ["c14:serve-returned", "c14:never-established"], "tier": "quick"},
+            {"harness": "HarnessC14Serve", "grid": {"enccfg": [0, 1, 2, 3], "transport": [0, 1, 2], "sendfails": [0, 1]}, "params": {"depth": 5},
+             "reach": ["c14:serve-returned"], "tier": "thorough"},
+        ],
+        "bounds": {"quick": {"script_depth": 4}, "thorough": {"script_depth": 5}},
+        "out": ["real transports' own goroutines", "the client-side half of the statement beyond 'the server closed the connection'"],
+        "assumptions": ["callbacks return normally"],
     },
     "C11": {
         "level_text": "Every path of the real reply builders (SuccessResponse, SuccessResponseWithResource, FailureResponse, Message.Notification, "
